@@ -2,7 +2,7 @@
 From Coq Require Import List Arith Bool Reals ZArith Floats.
 From Flocq Require Import Core.
 From ET Require Import Model.Scalar Model.Sparse Model.Basic Proofs.SparseBase Proofs.RInst Proofs.BasicProofs
-  Proofs.ScaleRound Proofs.F64Round Proofs.F64Scale Proofs.F64ScaleEq
+  Proofs.ScaleRound Proofs.F64Round Proofs.F64Scale Proofs.F64ScaleEq Proofs.RoundNonneg Proofs.RoundCanon
   Generated.KbnGen Proofs.KbnGenProofs.
 Import ListNotations.
 
@@ -214,6 +214,28 @@ Print Assumptions C04_pow2_scaling_same_scores_F64.
 Theorem C04_scaled_signed_example :
   Forall2 (scaled_signed 0) [(0%nat, 1%float : F64)] [(0%nat, 1%float : F64)].
 Proof. exact scaled_signed_example. Qed.
+
+(** (rounded arithmetic) "makes every non-empty row and vector sum to 1" beyond the reals: under any
+    rounding of relative error at most [u <= 2^-10], for a non-empty span of non-negative entries with
+    [14 n u <= 1/2], the canonical entries are non-negative and their exact sum is within [30 n u] of 1;
+    instance: binary64 without the exponent range, up to 2^47 entries, u = 2^-53. *)
+Theorem C04_canon_sums_to_one_rounded :
+  forall (rnd : R -> R) (u : R), (0 <= u)%R -> (u <= /1024)%R ->
+    (forall x, exists eps, (Rabs eps <= u)%R /\ rnd x = (x * (1 + eps))%R) ->
+    forall (l l' : list (nat * R)),
+      nn l -> l <> [] -> (14 * INR (length l) * u <= /2)%R ->
+      @canon (RND rnd) l = Ok l' ->
+      nn l' /\ (Rabs (lsum (map snd l') - 1) <= 30 * INR (length l) * u)%R.
+Proof. exact canon_sum_rounded. Qed.
+Print Assumptions C04_canon_sums_to_one_rounded.
+
+Theorem C04_canon_sums_to_one_rounded_binary64 :
+  forall (l l' : list (nat * R)),
+    nn l -> l <> [] -> (INR (length l) <= Raux.bpow Zaux.radix2 47)%R ->
+    @canon B64 l = Ok l' ->
+    nn l' /\ (Rabs (lsum (map snd l') - 1) <= 30 * INR (length l) * u64)%R.
+Proof. exact canon_sum_B64. Qed.
+Print Assumptions C04_canon_sums_to_one_rounded_binary64.
 
 (** (source tie) the compensated sum that all of the above is stated over is the one in the source:
     [Generated/KbnGen.v] is translated from pkg/sparse/util.go on every run. *)
